@@ -647,7 +647,7 @@ def c01_windows(ctx, verdict, intensive=False):
         broken.append(('Go driver TestVerifC01Route (client.RouteTCP with two local connections, one parked) failed to build or run', log[-3000:]))
         if not impl:
             return broken
-    nfail, states = 0, {}
+    nfail, states, fails = 0, {}, []
     for cid, line, meta in cases:
         io = impl.get(cid)
         if io is None:
@@ -659,10 +659,12 @@ def c01_windows(ctx, verdict, intensive=False):
             msg = '%s streams at the far end for 2 local connections' % d.get('streams')
         if msg:
             nfail += 1
-            if nfail <= 2:
-                verdict.oracle_failure('route-tcp:' + re.sub(r'\d+', 'N', msg)[:50], 'C01 oracle (client.RouteTCP, two local connections): ' + msg,
-                                       dict(kind='window', driver='c01', case=line, meta=meta, implementation=io, schedule=c01_schedule(meta, d), race_report=(race or '')[:2000],
-                                            how='python3 tools/check.py C01 --replay <this file>  (VERIF_IN=<file with the case line> go test -race -overlay .. -run TestVerifC01Route ./internal/client/)'))
+            fails.append((0 if d.get('state') == 'D' else 1, len(line), line, meta, io, d, msg))
+    # a schedule with the park in place replays deterministically: report those first
+    for _, _, line, meta, io, d, msg in sorted(fails, key=lambda f: f[:2])[:2]:
+        verdict.oracle_failure('route-tcp:' + re.sub(r'\d+', 'N', msg)[:50], 'C01 oracle (client.RouteTCP, two local connections): ' + msg,
+                               dict(kind='window', driver='c01', case=line, meta=meta, implementation=io, schedule=c01_schedule(meta, d), race_report=(race or '')[:2000],
+                                    how='python3 tools/check.py C01 --replay <this file>  (VERIF_IN=<file with the case line> go test -race -overlay .. -run TestVerifC01Route ./internal/client/)'))
     if race and nfail == 0:
         verdict.oracle_failure('route-tcp:data-race', 'C01 oracle (client.RouteTCP): two relay goroutines of different local connections touch the same memory without ordering (race detector); one connection\'s bytes can be sent on the other\'s stream',
                                dict(kind='window', driver='c01', race_report=race[:3000], schedule=['two local connections accepted by RouteTCP, each sends a first packet; see the two stacks of the report'],
@@ -712,7 +714,7 @@ def c14_windows(ctx, verdict, intensive=False):
         broken.append(('Go driver TestVerifC14Route (client.RouteUDP with two local applications) failed to build or run', log[-3000:]))
         if not impl:
             return broken
-    nfail, states, pairs = 0, {}, 0
+    nfail, states, pairs, fails = 0, {}, 0, []
     for cid, line, meta in cases:
         io = impl.get(cid)
         if io is None:
@@ -723,10 +725,11 @@ def c14_windows(ctx, verdict, intensive=False):
         msg = _route_oracle(d, ['upA', 'upB', 'downA', 'downB'])
         if msg:
             nfail += 1
-            if nfail <= 2:
-                verdict.oracle_failure('relay:isolation:' + re.sub(r'\d+', 'N', msg)[:50], 'C14 oracle (client.RouteUDP, two local applications): ' + msg,
-                                       dict(kind='window', driver='c14', case=line, meta=meta, implementation=io, schedule=c14_schedule(meta, d), race_report=(race or '')[:2000],
-                                            how='python3 tools/check.py C14 --replay <this file>  (VERIF_IN=<file with the case line> go test -race -overlay .. -run TestVerifC14Route ./internal/client/)'))
+            fails.append((0 if (d.get('state') == 'D' and d.get('upA') == 'ok' and d.get('upB') == 'ok') else 1, len(line), line, meta, io, d, msg))
+    for _, _, line, meta, io, d, msg in sorted(fails, key=lambda f: f[:2])[:2]:
+        verdict.oracle_failure('relay:isolation:' + re.sub(r'\d+', 'N', msg)[:50], 'C14 oracle (client.RouteUDP, two local applications): ' + msg,
+                               dict(kind='window', driver='c14', case=line, meta=meta, implementation=io, schedule=c14_schedule(meta, d), race_report=(race or '')[:2000],
+                                    how='python3 tools/check.py C14 --replay <this file>  (VERIF_IN=<file with the case line> go test -race -overlay .. -run TestVerifC14Route ./internal/client/)'))
     if race and nfail == 0:
         verdict.oracle_failure('relay:isolation:data-race', 'C14 oracle (client.RouteUDP): two relay goroutines of different streams touch the same memory without ordering (race detector); one application can receive the other\'s datagram',
                                dict(kind='window', driver='c14', race_report=race[:3000], schedule=['two local applications, answers for both in flight; see the two stacks of the report'],
